@@ -111,6 +111,13 @@ def api_cases(chk, tier):
     T = [thin(-1.0, 9.0, 1.0), thin(-6.0, 7.0, 1.0), thin(-3.0, 4.0, 1.0), thin(-1.0, 8.0, 1.0), thin(-8.0, 9.5, 0.5)]
     for i, j in ((0, 1), (1, 0), (2, 3), (3, 2), (4, 0), (1, 3)):
         out.append(("Mul", "f", T[i], T[j], ("thin-straddle", "thin-straddle"), (i + j) % 2 == 0))
+    # sessions: one pair of operand objects through all four operations in a row (shared operand lists => shared objects, see pbx.staircase_of)
+    for kx, ky in (("straddle", "pos"), ("neg", "straddle")):
+        X = pbx.gen_bounds(rng, 200, kx, dy=True)
+        Y = pbx.gen_bounds(rng, 200, ky, dy=True)
+        for op in ("Mul", "Add", "Div", "Sub", "Mul"):
+            if not (op == "Div" and ky == "straddle"):
+                out.append((op, "f", X, Y, (kx, ky, "session"), op == "Add"))
     # the Frechet combination requested explicitly while ANOTHER dependency is the ambient setting: still the Frechet result
     for amb in "poi":
         for op, kx, ky in (("Mul", "straddle", "straddle"), ("Mul", "straddle", "pos"), ("Mul", "neg", "straddle"), ("Div", "straddle", "pos"), ("Add", "pos", "straddle"), ("Sub", "neg", "pos")):
@@ -126,7 +133,7 @@ def run_api(case):
     op, d, X, Y, _, bare = case[:6]
     amb = case[6] if len(case) > 6 else None
     try:
-        x, y = Staircase(np.array(X[0]), np.array(X[1])), Staircase(np.array(Y[0]), np.array(Y[1]))
+        x, y = pbx.staircase_of(X), pbx.staircase_of(Y)
         if bare:
             r = pbx.PYOPS[op](x, y)
         else:
